@@ -27,7 +27,8 @@ CS0(proto) ==
    acs |-> <<>>, zones |-> <<>>, version |-> <<>>,
    cmds |-> <<>>,                      \* pending public commands
    refresh |-> <<>>, errreq |-> {},    \* explained internal frames that are due
-   hbDl |-> 0, beatDl |-> 0, beaten |-> FALSE, pollDl |-> 0, polled |-> FALSE, causes |-> 0,
+   stale |-> <<>>,                     \* refresh requests of an earlier connection that the socket may still hold
+   hbDl |-> 0, hbPrev |-> -1, beatDl |-> 0, beaten |-> FALSE, pollDl |-> 0, pollPrev |-> -1, polled |-> FALSE, causes |-> 0,
    subs |-> <<>>,                      \* active subscriptions [who, target, kind]
    must |-> {}, mustnot |-> {}, seen |-> <<>>, obl |-> FALSE,
    viol |-> <<>>]
@@ -267,6 +268,9 @@ RxFrame(cs, ev) ==
                                       /\ ~Eq(c1.acs[j].status, cs.acs[j].status)}}
                              ELSE {}
                    c2 == [c1 EXCEPT !.errreq = @ \cup newErr,
+                                    \* a response at the very instant of a deadline: either order is acceptable
+                                    !.hbPrev = IF ans = "version" /\ cs.hbDl # cs.now + HB_TIMEOUT THEN cs.hbDl ELSE @,
+                                    !.pollPrev = IF ans = "zonestatus" /\ cs.proto = "at4" /\ cs.pollDl # cs.now + POLL_INTERVAL THEN cs.pollDl ELSE @,
                                     !.hbDl = IF ans = "version" THEN cs.now + HB_TIMEOUT ELSE @,
                                     !.pollDl = IF ans = "zonestatus" /\ cs.proto = "at4" THEN cs.now + POLL_INTERVAL ELSE @,
                                     !.polled = IF ans = "zonestatus" /\ cs.proto = "at4" THEN FALSE ELSE @]
@@ -278,7 +282,7 @@ RxFrame(cs, ev) ==
 (* frames written by the client: every one must be explained *)
 
 HeartbeatDue(cs) == cs.phase = "ready" /\ cs.now = cs.beatDl /\ ~cs.beaten
-PollDue(cs) == cs.proto = "at4" /\ cs.phase = "ready" /\ cs.now = cs.pollDl /\ ~cs.polled
+PollDue(cs) == cs.proto = "at4" /\ cs.phase = "ready" /\ (cs.now = cs.pollDl \/ cs.now = cs.pollPrev) /\ ~cs.polled
 
 \* a command whose frame content is undetermined (exp.any) explains a frame only while the call is in
 \* progress; a determined command also explains a later frame (queued while the link was down)
@@ -286,8 +290,11 @@ CmdIdx(cs, alts) == {i \in 1..Len(cs.cmds) : cs.cmds[i].sent = 0 /\ ~Eq(cs.cmds[
                                              /\ (~cs.cmds[i].done \/ ~Eq(cs.cmds[i].exp.any, TRUE))
                                              /\ \E a \in 1..Len(alts) : CmdMatches(cs.cmds[i].exp, alts[a])}
 
+DropFirst(q, x) == LET i == Min({j \in 1..Len(q) : q[j] = x}) IN SubSeq(q, 1, i - 1) \o SubSeq(q, i + 1, Len(q))
+
 TxFrame(cs, ev) ==
   IF ~ev.ok THEN CV(cs, "GarbledFrame")
+  ELSE IF cs.phase = "closing" THEN cs      \* shutdown() called, not returned: the statements fix nothing yet
   ELSE
   LET m    == ev.alts[1]
       kind == ReqKind(m)
@@ -298,6 +305,8 @@ TxFrame(cs, ev) ==
       ci   == CmdIdx(cs, ev.alts)
   IN IF hsOK THEN [cs EXCEPT !.step = @ + 1]
      ELSE IF cs.refresh # <<>> /\ kind = Head(cs.refresh) THEN [cs EXCEPT !.refresh = Tail(@)]
+     ELSE IF \E i \in 1..Len(cs.stale) : cs.stale[i] = kind
+          THEN [cs EXCEPT !.stale = DropFirst(@, kind)]
      ELSE IF cs.refresh # <<>> /\ cs.phase = "ready" /\ kind \in {"acstatus", "zonestatus"}
           THEN CV([cs EXCEPT !.refresh = SelectSeq(@, LAMBDA x : x # kind)], "RefreshOrder")
      ELSE IF kind = "errreq" /\ s.ac_number \in cs.errreq THEN [cs EXCEPT !.errreq = @ \ {s.ac_number}]
@@ -327,7 +336,7 @@ TargetNum(t) == t   \* kept symbolic: ApiModel receives the numeric id in ev.tn
 CallApi(cs, ev) ==
   CASE ev.method = "init" ->
          [cs EXCEPT !.phase = "init", !.answered = 0, !.step = 0, !.t0 = cs.now, !.initId = ev.id, !.initRet = "none",
-                    !.acs = <<>>, !.zones = <<>>, !.version = <<>>, !.refresh = <<>>, !.errreq = {}, !.cmds = <<>>,
+                    !.acs = <<>>, !.zones = <<>>, !.version = <<>>, !.refresh = <<>>, !.stale = <<>>, !.errreq = {}, !.cmds = <<>>,
                     !.subs = SelectSeq(@, LAMBDA x : x.kind = "airtouch"), !.steady = FALSE]
     [] ev.method = "shutdown" ->
          [Settle(cs) EXCEPT !.phase = "closing", !.everShut = TRUE, !.steady = FALSE, !.refresh = <<>>, !.errreq = {}]
@@ -350,7 +359,8 @@ RetApi(cs, ev) ==
        ELSE IF Eq(ev.val, TRUE)
        THEN IF cs.phase = "ready" THEN [cs EXCEPT !.initRet = "true"] ELSE CV([cs EXCEPT !.initRet = "true"], "InitTrueEarly")
        ELSE LET c1 == [cs EXCEPT !.initRet = "false"]
-            IN IF cs.phase = "ready" THEN CV(c1, "InitNotTrue")
+            IN IF cs.now = cs.t0 + INIT_TIMEOUT THEN c1          \* at the very instant of the deadline either outcome stands
+               ELSE IF cs.phase = "ready" THEN CV(c1, "InitNotTrue")
                ELSE IF cs.now < cs.t0 + INIT_TIMEOUT THEN CV(c1, "InitEarlyFalse")
                ELSE IF cs.now > cs.t0 + INIT_TIMEOUT THEN CV(c1, "InitLate")
                ELSE c1
@@ -429,12 +439,14 @@ Quiesce(cs0) ==
 \* the client closed the connection with no external cause: only a heartbeat timeout justifies it
 ClientClose(cs) ==
   LET c1 == IF cs.phase = "ready" /\ cs.causes = 0
-            THEN IF cs.now = cs.hbDl THEN [cs EXCEPT !.hbDl = @ + HB_TIMEOUT] ELSE CV(cs, "SpuriousHeartbeatReset")
+            THEN IF cs.now = cs.hbDl THEN [cs EXCEPT !.hbDl = @ + HB_TIMEOUT]
+                 ELSE IF cs.now = cs.hbPrev THEN cs
+                 ELSE CV(cs, "SpuriousHeartbeatReset")
             ELSE cs
-  IN [c1 EXCEPT !.up = FALSE, !.steady = FALSE, !.refresh = <<>>]
+  IN [c1 EXCEPT !.up = FALSE, !.steady = FALSE, !.refresh = <<>>, !.stale = @ \o cs.refresh]
 
 ConnOk(cs) ==
-  [cs EXCEPT !.up = TRUE, !.upSince = cs.now, !.causes = 0,
+  [cs EXCEPT !.up = TRUE, !.upSince = cs.now, !.causes = 0, !.stale = @ \o cs.refresh,
              !.refresh = IF cs.phase = "ready" THEN <<"acstatus", "zonestatus">> ELSE <<>>]
 
 CStep(cs0, ev) ==
